@@ -20,7 +20,8 @@ TECHNIQUE = ('Hypothesis property-based testing with harness-injected worker del
 LEVEL_TEXT = ('Generated-input search (320 pool runs quick, 6k thorough) over 1-6 pairwise different rows (up to 12 rows with n_jobs=1, '
               'where batching would matter), option dict / per-row lists (own centring, method, thresholds per row), n_jobs in '
               '{1, 2, rows, rows+3, -1}, progress None/"tqdm", return_samples (also contradicted inside the option dict) and per-row '
-              'delays up to 60 ms (including reversed completion order). The OS schedule is perturbed, not enumerated.')
+              'delays up to 60 ms (including reversed completion order). The OS schedule is perturbed, not enumerated. Plus 24 (quick) / 400 (thorough) '
+              'runs with the start method set to spawn / forkserver, and one call on a 68 MiB array with a per-row option list and two workers.')
 RULE = ('Hypothesis: rows = distinct noisy asymmetric / bursty oscillations sharing fs, band and length; options: None, one dict, the same '
         'dict object repeated in a list, or a list of different dicts; delays drawn per row and injected by rebinding compute_features '
         '(same qualified name) before the pool forks, so with n_jobs >= rows the completion order is the order of the delays. Oracle: '
